@@ -60,15 +60,34 @@ type c25Op struct {
 }
 
 // c25Update is the optional page-table update history: at driver cycle Cut the
-// mapping of the page touched by the LAST op is changed to frame (old+1)%4,
+// mapping of the page touched by the LAST op is changed to the lowest frame
+// that no page of that PID is mapped to (so that a translation answered with a
+// sibling page's frame can never pass for the new mapping),
 // then First ("pause" or "drain") -> Invalidate(filter) -> Enable is sent to
 // every translation cache, top-down, one acknowledged command at a time. Ops
-// not yet issued at the cut (the last op is always held back) are issued only
-// after the final acknowledgement.
+// not yet issued at the cut (the last Hold ops are always held back) are issued
+// only after the final acknowledgement.
 type c25Update struct {
 	First string `json:"first"`
-	// Cut < 0: run the history once per cut cycle 0..(end of the update-free run)+1.
+	// Cut < 0: run the history once per cut cycle 0..(cycle at which the
+	// accesses issued before the update have drained)+1. Later cuts would find
+	// the same idle stack.
 	Cut int `json:"cut"`
+	// Hold: how many trailing ops are held back until the final
+	// acknowledgement (0 means 1: only the last op). With Hold >= 2 the
+	// invalidated page's way can be recycled by another page before the page
+	// is accessed again.
+	Hold int `json:"hold,omitempty"`
+	// Filter of the Invalidate: "" = the updated page's address and PID,
+	// "pid" = every page of that PID, "all" = every entry.
+	Filter string `json:"filter,omitempty"`
+}
+
+func (u *c25Update) hold() int {
+	if u.Hold <= 0 {
+		return 1
+	}
+	return u.Hold
 }
 
 type c25Case struct {
@@ -211,7 +230,7 @@ func (d *c25Driver) Tick() bool {
 
 	limit := len(cs.Ops)
 	if cs.Upd != nil && d.phase == 0 {
-		limit-- // the last op is always issued after the shoot-down
+		limit -= cs.Upd.hold() // the trailing ops are always issued after the shoot-down
 		if cycle >= d.cut {
 			rig.applyUpdate()
 			d.phase = 1
@@ -233,8 +252,14 @@ func (d *c25Driver) Tick() bool {
 				req.TrafficClass = "memcontrolprotocol.Req"
 				if st.cmd == memcontrolprotocol.CmdInvalidate {
 					last := cs.Ops[len(cs.Ops)-1]
-					req.Addresses = []uint64{uint64(last.VP) * c25PageSize}
-					req.PID = vm.PID(last.PID)
+					switch cs.Upd.Filter {
+					case "all":
+					case "pid":
+						req.PID = vm.PID(last.PID)
+					default:
+						req.Addresses = []uint64{uint64(last.VP) * c25PageSize}
+						req.PID = vm.PID(last.PID)
+					}
 				}
 				ctrlPort.Send(req)
 				d.waitingID = req.ID
@@ -384,8 +409,19 @@ func (r *c25Rig) applyUpdate() {
 	last := r.cs.Ops[len(r.cs.Ops)-1]
 	old := r.frames[last.PID-1][last.VP]
 	r.oldFrame = old
-	r.frames[last.PID-1][last.VP] = (old + 1) % 4
-	r.pt.Update(r.page(last.PID, last.VP, (old+1)%4))
+	nf := (old + 1) % 4
+	for f := 0; f < 4; f++ {
+		used := false
+		for _, g := range r.frames[last.PID-1] {
+			used = used || g == f
+		}
+		if !used {
+			nf = f
+			break
+		}
+	}
+	r.frames[last.PID-1][last.VP] = nf
+	r.pt.Update(r.page(last.PID, last.VP, nf))
 	r.updated = true
 }
 
@@ -772,7 +808,8 @@ func c25Valid(cs c25Case) bool {
 			return false
 		}
 	}
-	if cs.Upd != nil && (len(cs.Ops) == 0 || (cs.Upd.First != "pause" && cs.Upd.First != "drain")) {
+	if cs.Upd != nil && (len(cs.Ops) == 0 || (cs.Upd.First != "pause" && cs.Upd.First != "drain") || cs.Upd.hold() > len(cs.Ops) ||
+		(cs.Upd.Filter != "" && cs.Upd.Filter != "pid" && cs.Upd.Filter != "all")) {
 		return false
 	}
 	return true
@@ -800,9 +837,12 @@ func runC25(cs c25Case) (string, []lib.Problem) {
 		}
 		return out + " upd", pr.list
 	}
-	// every cut: cycle 0 .. one past the end of the run without the update
+	// every cut: cycle 0 .. one past the cycle at which the accesses issued
+	// before the update have drained (from then on the stack is idle and every
+	// later cut finds the same state)
 	base := cs
 	base.Upd = nil
+	base.Ops = cs.Ops[:len(cs.Ops)-cs.Upd.hold()]
 	scratch := &probs{prefix: "xlate:"}
 	end, _ := c25RunOnce(base, 0, scratch)
 	n := int64(1)
@@ -814,7 +854,7 @@ func runC25(cs c25Case) (string, []lib.Problem) {
 	if c25Executions != nil {
 		c25Executions(n)
 	}
-	return fmt.Sprintf("%s upd-%s cuts%d", out, cs.Upd.First, end+2), pr.list
+	return fmt.Sprintf("%s upd-%s%s h%d cuts%d", out, cs.Upd.First, cs.Upd.Filter, cs.Upd.hold(), end+2), pr.list
 }
 
 // ---------------------------------------------------------------------------
@@ -970,6 +1010,60 @@ func enumC25(c *lib.Ctx, yield func(c25Case) bool) {
 				})
 				if !ok {
 					return
+				}
+			}
+		}
+	}
+	// family E: an invalidated entry's way is recycled before the page is
+	// accessed again. Read-only scripts of 3..4 (thorough 5) accesses of PID 1
+	// whose last page was touched before the update; the last 2..3 accesses are
+	// issued after the final acknowledgement (so another page of the same set
+	// can take the invalidated way first); TLB-only stacks, one-set and
+	// two-set/one-way geometries; at every cut.
+	{
+		geosE := []c25Geo{{1, 1, 1, 2}, {1, 2, 2, 2}, {2, 1, 1, 2}}
+		maxE := 4
+		if thorough {
+			geosE = append(geosE, c25Geo{1, 2, 1, 4}, c25Geo{2, 2, 2, 1})
+			maxE = 5
+		}
+		for _, sh := range []c25Shape{{}, {l2: true}} {
+			for _, g := range geosE {
+				for _, first := range []string{"drain", "pause"} {
+					for n := 3; n <= maxE; n++ {
+						for hold := 2; hold <= 3 && hold < n; hold++ {
+							for _, filter := range []string{"", "pid", "all"} {
+								if filter != "" && !thorough && n > 3 {
+									continue // quick: PID / all filters on the 3-access scripts only
+								}
+								ops := make([]c25Op, n)
+								var rec func(i int) bool
+								rec = func(i int) bool {
+									if i == n {
+										last := ops[n-1]
+										touched := false
+										for _, o := range ops[:n-hold] {
+											touched = touched || o.VP == last.VP
+										}
+										if !touched {
+											return true
+										}
+										return yield(mk(sh, g, 0, 4, false, append([]c25Op{}, ops...), &c25Update{First: first, Cut: -1, Hold: hold, Filter: filter}))
+									}
+									for vp := 0; vp < 3; vp++ {
+										ops[i] = c25Op{PID: 1, VP: vp}
+										if !rec(i + 1) {
+											return false
+										}
+									}
+									return true
+								}
+								if !rec(0) {
+									return
+								}
+							}
+						}
+					}
 				}
 			}
 		}
